@@ -5,6 +5,7 @@ Part A: the container / union / literal / basic scalar fragment, hostile data, s
 Part B: every builtin scalar provider (incl. the optional ones of the public API), bare and nested under each
         container, against a hostile pool; direct oracle: the exception must be a LoadError all the way down.
 """
+import collections
 import datetime as dt
 import decimal
 import enum
@@ -16,8 +17,8 @@ import random
 import re
 import typing
 import uuid
-from dataclasses import dataclass
-from typing import Any, Dict, List, Literal, Optional, Tuple, Union
+from dataclasses import dataclass, field
+from typing import Any, Dict, FrozenSet, List, Literal, Optional, Set, Tuple, Union
 
 import lib
 import loadgen as lg
@@ -54,7 +55,7 @@ def scalar_types():
 def hostile_pool():
     class Obj:
         pass
-    return [None, True, False, 0, 1, -1, 2 ** 63, 10 ** 400, -10 ** 400, 1.5, float("nan"), float("inf"), float("-inf"),
+    return [None, True, False, 0, 1, -1, 2 ** 63, 10 ** 400, -10 ** 400, 10 ** 5000, 1.5, float("nan"), float("inf"), float("-inf"),
             1e308, 1e18, -1e18, 1e-320, "", "a", "1", "1/0", "1e", "1e999", "é", "٣", "\x00", "\ud800", "a" * 5000,
             "a{99999999999999999999}", "(", "12:00", "2020-01-01", "2020-13-45", "2020-01-01T25:00:00", "zz",
             "127.0.0.1", "::1", "1.2.3.4/33", "256.1.1.1", "12345678-1234-5678-1234-567812345678", "YQ==", "YQ=", "YQ==\n",
@@ -140,14 +141,129 @@ def part_b(rep, tier):
                                     while getattr(leaf, "exceptions", None):
                                         bad = [s for s in leaf.exceptions if not only_load_errors(s)]
                                         leaf = bad[0]
-                                    key = (pname, tname(tp), type(leaf).__name__)
-                                    leaks.setdefault(key, []).append((wname, sc, mode, repr(d)[:80]))
-    for (pname, tn, exn), where in sorted(leaks.items()):
-        rep.violation(f"escape:{pname}:{tn}:{exn}", "property-violated",
+                                    key = (pname, tname(tp), type(leaf).__name__, cause_of(leaf))
+                                    leaks.setdefault(key, []).append((wname, sc, mode, safe_repr(d)))
+    for (pname, tn, exn, cause), where in sorted(leaks.items()):
+        rep.violation(f"escape:{pname}:{tn}:{exn}" + ("" if cause == "other" else ":" + cause), "property-violated",
                       {"what": f"{exn} escapes from the {pname} loader of {tn} instead of a LoadError",
                        "provider": pname, "type": tn, "exception": exn,
                        "first_cases": [{"nesting": w, "strict_coercion": s, "debug_trail": m, "datum": d} for w, s, m, d in where[:4]],
                        "n_cases": len(where)})
+    return n, leaks
+
+
+def safe_repr(d, n=80):
+    try:
+        return repr(d)[:n]
+    except BaseException as e:  # noqa: BLE001  - e.g. ints beyond the interpreter's int -> str digit limit
+        return f"<{type(d).__name__}: repr raises {type(e).__name__}>"
+
+
+def cause_of(exc):
+    m = str(exc) if not isinstance(exc, str) else exc
+    if "unhashable type" in m:
+        return "unhashable-element"
+    if "keywords must be strings" in m or "got multiple values for" in m:
+        return "extra-kwargs-key"
+    if "Exceeds the limit" in m and "integer string conversion" in m:
+        return "int-str-digit-limit"
+    return "other"
+
+
+def structural_pool():
+    """data whose *shape* is hostile: keys that are not strings / not hashable-friendly / not comparable with each other,
+    unhashable elements, ints beyond the int -> str digit limit as values and as keys (they end up in trails)"""
+    big = 10 ** 5000
+    base = [None, 1, "s", b"b", [], (), {}, {3: "x", "a": 1}, {"a": 1, 3: "x"}, {"a": 1, None: 2}, {"a": 1, (1, 2): 2},
+            {"a": 1, "b": "y", "z": 1}, {"a": 1, "b": "y", 3: 1, None: 4}, {"a": 1, "zz": 1, 3: 2}, [1], [1, "x"], [1, "x", {}],
+            {"a": [1]}, {"a": {}}, {"d": {"a": 1, 3: 4}, "l": [{"a": 1, 3: 2}]}, {"d": None}, {"d": {"a": 1}, "l": None},
+            {"d": {"a": 1}, "l": [None, 3]}, collections.OrderedDict(a=1), collections.ChainMap({"a": 1}),
+            collections.defaultdict(int, a=1), big, {big: 1, "a": 1}, {"a": big}, {"a": 1, big: "x"}, {"a": "bad", big: "x"},
+            {"a": 1.5}, {"a": 1, "rest": 3}, {"a": 1, "rest": {3: 4}}, {"a": 1, frozenset(): 1}, {"a": 1, 1.5: 2},
+            {"a": 1, b"k": 2}, {"a": 1, "self": 3}, {"a": 1, "cls": 3}, {"a": 1, "a_": 2}, {"a": 1, "": 2}, {"a": 1, "not an id": 2},
+            [[1]], [[1], [2]], [{}], [{1: 2}], [set()], [1, [2]], {(1,): 1}, {"k": [1]}, {"k": {}}, {big: "bad"}, [big], [big, "bad"],
+            {"k": big}, (big, big), {1: "bad", "x": "bad"}, {None: "bad", "x": 1}]
+    return base + [{"p": x} for x in base[:16]] + [{"p": {"q": 1, 3: 4}}, {"p": {"q": 1}, 3: 4}, {"p": [1]}, {"p": {"q": 1, 0: 2}},
+                                                   {"p": {"q": 1, None: 2, "u": 3}}]
+
+
+def structural_jobs():
+    from adaptix import ExtraForbid, ExtraKwargs, ExtraSkip, name_mapping
+
+    class K:
+        def __init__(self, a: int, **kw):
+            self.a, self.kw = a, kw
+
+    @dataclass
+    class D:
+        a: int
+        b: str = "x"
+        rest: dict = field(default_factory=dict)
+
+    @dataclass
+    class N:
+        d: D
+        l: List[D] = field(default_factory=list)   # noqa: E741
+
+    @dataclass
+    class Lst:
+        a: int
+        b: str = "x"
+
+    models = (K, D, N, Lst, List[D], Dict[str, D], Optional[D], Union[D, int], Dict[int, D], Dict[Any, Lst])
+    plain = (Set[Any], FrozenSet[Any], Set[int], List[Any], Dict[Any, int], Dict[Any, Any], Dict[int, int], Dict[str, Any],
+             Tuple[Any, ...], Tuple[Any, Any], typing.Collection[Any], typing.AbstractSet[Any], typing.Mapping[Any, Any],
+             typing.Deque[Any], Dict[int, str], List[int], Optional[Set[Any]], Union[Set[Any], int], str, List[str], Dict[str, str])
+    return [
+        ("plain", [], models + plain),
+        ("extra_kwargs", [name_mapping(K, extra_in=ExtraKwargs())], (K, List[K], Dict[str, K])),
+        ("extra_forbid", [name_mapping(D, extra_in=ExtraForbid())], models),
+        ("extra_skip", [name_mapping(D, extra_in=ExtraSkip())], models),
+        ("extra_collect", [name_mapping(D, extra_in="rest")], models),
+        ("as_list", [name_mapping(Lst, as_list=True)], (Lst, List[Lst], Dict[Any, Lst])),
+        ("nested_map", [name_mapping(D, map={"a": ("p", "q")})], models),
+        ("nested_map_forbid", [name_mapping(D, map={"a": ("p", "q")}, extra_in=ExtraForbid())], models),
+        ("nested_map_collect", [name_mapping(D, map={"a": ("p", "q")}, extra_in="rest")], models),
+    ]
+
+
+def part_c(rep, tier, only=None):
+    """containers and models against structurally hostile data: whatever the shape of the datum, only LoadError"""
+    from adaptix import DebugTrail, Retort
+    pool = structural_pool()
+    n, leaks = 0, {}
+    for sc in (True, False):
+        for mode in ("DISABLE", "FIRST", "ALL"):
+            for cname, recipe, types in structural_jobs():
+                retort = Retort(strict_coercion=sc, debug_trail=getattr(DebugTrail, mode), recipe=recipe)
+                for tp in types:
+                    tn = tname(tp) if not typing.get_args(tp) else str(tp).replace("typing.", "")
+                    tn = re.sub(r"props\.c04\.structural_jobs\.<locals>\.|__main__\.", "", tn)
+                    if only and (cname, tn) != only:
+                        continue
+                    try:
+                        ld = retort.get_loader(tp)
+                    except Exception:  # noqa: BLE001  - creating the loader is not C04's subject
+                        continue
+                    for i, d in enumerate(pool):
+                        n += 1
+                        try:
+                            ld(d)
+                        except BaseException as e:  # noqa: BLE001
+                            if not only_load_errors(e):
+                                leaf = e
+                                while getattr(leaf, "exceptions", None):
+                                    leaf = [s for s in leaf.exceptions if not only_load_errors(s)][0]
+                                leaks.setdefault((cause_of(leaf), cname, tn, type(leaf).__name__), []).append(
+                                    (sc, mode, i, safe_repr(d), safe_repr(leaf, 120)))
+    if only is None:
+        for (cause, cname, tn, exn), where in sorted(leaks.items()):
+            rep.violation(f"escape:structure:{cause}:{cname}:{tn}:{exn}", "property-violated",
+                          {"what": f"{exn} escapes from the loader of {tn} ({cname}) instead of a LoadError",
+                           "config": cname, "type": tn, "exception": exn,
+                           "first_cases": [{"strict_coercion": s, "debug_trail": m, "pool_index": i, "datum": d, "raised": x}
+                                           for s, m, i, d, x in where[:4]],
+                           "n_cases": len(where)})
     return n, leaks
 
 
@@ -177,15 +293,19 @@ def run(rep, tier, seed):
                           {"what": "a non-LoadError escapes from builtin loaders", "type": t, "datum": v,
                            "strict_coercion": sc, "mode": lg.MODES[mi]})
     nb, leaks = part_b(rep, tier)
+    nc, leaks_c = part_c(rep, tier)
     rep.cov.update({
-        "evaluations": len(cases) + nb,
+        "evaluations": len(cases) + nb + nc,
         "distinct_nontrivial": len({repr((c[2], c[3])) for c in cases if c[2][0] not in ("TInt", "TStr", "TBool", "TNone", "TAny")}),
         "rule": "part A: types of depth <= 3 with 45% junk data and a user loader raising ValueError, 3 modes, strict/lax, "
                 "library vs model; part B: 37 builtin scalar types and 10 optional scalar providers, bare and nested under "
                 "List / Optional / Dict / Tuple / Union / model field, x a hostile pool of ~100 data x 6 configurations, "
-                "oracle = every leaf of the raised exception is a LoadError; non-trivial = compound type (part A)",
+                "oracle = every leaf of the raised exception is a LoadError; part C: ~30 container types and 4 model classes under 9 "
+                "name_mapping / extra policies x ~80 structurally hostile data (non-string, unhashable, mutually incomparable keys, "
+                "unhashable elements, ints beyond the int->str digit limit as values and keys) x 6 configurations; "
+                "non-trivial = compound type (part A)",
         "samples": [{"type": cases[i][2], "datum": cases[i][3], "library": expected[i]} for i in (0, 3)],
-        "distribution": {"part_a_cases": len(cases), "part_b_loads": nb, "part_b_escape_kinds": len(leaks),
+        "distribution": {"part_a_cases": len(cases), "part_b_loads": nb, "part_b_escape_kinds": len(leaks), "part_c_loads": nc, "part_c_escape_kinds": len(leaks_c),
                          "part_a_other_exception": sum(e == "X" for e in expected),
                          "model_vs_library_mismatches": len(bad)},
     })
@@ -193,6 +313,15 @@ def run(rep, tier, seed):
 
 
 def replay(rep, body):
+    if "config" in body:
+        n, leaks = part_c(rep, "quick", only=(body["config"], body["type"]))
+        hits = {k: v for k, v in leaks.items() if k[3] == body["exception"]}
+        for k, v in hits.items():
+            print("escapes:", k, v[:2])
+        print("escaping cases:", sum(len(v) for v in hits.values()))
+        if hits:
+            rep.violation(body["signature"], body["kind"], body)
+        return
     if "provider" in body:
         from adaptix import DebugTrail, Retort
         hits = 0
@@ -216,7 +345,7 @@ def replay(rep, body):
                                     if not only_load_errors(e):
                                         hits += 1
                                         if hits <= 3:
-                                            print("escapes:", wname, sc, mode, repr(d)[:60], "->", repr(e)[:100])
+                                            print("escapes:", wname, sc, mode, safe_repr(d, 60), "->", safe_repr(e, 100))
         print("escaping cases:", hits)
         if hits:
             rep.violation(body["signature"], body["kind"], body)
